@@ -420,6 +420,43 @@ func init() {
 			}
 			return ex.C.False()
 		},
+		// errors.As: walks the wrap chain; a target of interface type matches
+		// the first error whose dynamic type implements it, a concrete target
+		// the first error of exactly that type
+		"errors.As": func(ex *Exec, g *Goroutine, cs *callSite, args []Value) Value {
+			e, ok1 := args[0].(Iface)
+			tgt, ok2 := args[1].(Iface)
+			if !ok1 || !ok2 || tgt.T == nil {
+				panic(unsupported("errors.As with an unexpected argument shape"))
+			}
+			pt, ok := tgt.T.Underlying().(*types.Pointer)
+			tp, okp := tgt.V.(Ptr)
+			if !ok || !okp || tp.Slot == nil {
+				panic(unsupported("errors.As target is not a pointer to a variable"))
+			}
+			elem := pt.Elem()
+			for depth := 0; depth < 10 && e.T != nil; depth++ {
+				if it, isI := elem.Underlying().(*types.Interface); isI {
+					if types.Implements(e.T, it) || ex.nativeImplements(e, it) {
+						*tp.Slot = e
+						return ex.C.True()
+					}
+				} else if types.Identical(e.T, elem) {
+					*tp.Slot = e.V
+					return ex.C.True()
+				}
+				p, ok := e.V.(Ptr)
+				if !ok || p.Slot == nil {
+					break
+				}
+				w, ok := ex.wraps[p.Slot]
+				if !ok {
+					break
+				}
+				e = w
+			}
+			return ex.C.False()
+		},
 		"strings.Split": func(ex *Exec, g *Goroutine, cs *callSite, args []Value) Value {
 			a, ok1 := args[0].(string)
 			b, ok2 := args[1].(string)
